@@ -16,6 +16,7 @@
  *            the entries in order; seek(target) lands on the first entry
  *            >= target (reference order). */
 #include "vp.h"
+#include "util/array.h"
 #include "util/buffer.h"
 #include "util/slice.h"
 #include "util/comparator.h"
@@ -111,6 +112,14 @@ harness(void) {
   vp_make_entries();
 
   ldb_blockgen_init(&bb, &opt);
+#ifdef VP_PREGROW
+  /* capacity reserved up front (public ldb_buffer_grow/ldb_array_grow): the
+     builder then never reallocates; the growth path is exercised by the
+     obligations without VP_PREGROW */
+  ldb_buffer_grow(&bb.buffer, VP_PREGROW);
+  ldb_buffer_grow(&bb.last_key, VP_KMAX + 1);
+  ldb_array_grow(&bb.restarts, 4);
+#endif
 
 #if VP_PRE > 0
   /* the table builder reuses one block builder for every block */
